@@ -278,6 +278,11 @@ func initContainer(c containerConfig) error {
 }
 
 func initFileSystem(c containerConfig) error {
+	// mark the mount tree as private: mounts shared on the host were copied as slaves
+	// and would keep receiving every mount the host makes below a bind source
+	if err := syscall.Mount("", "/", "", syscall.MS_REC|syscall.MS_PRIVATE, ""); err != nil {
+		return fmt.Errorf("init_fs: make / private: %w", err)
+	}
 	// mount tmpfs as root
 	const tmpfs = "tmpfs"
 	if err := syscall.Mount(tmpfs, c.ContainerRoot, tmpfs, 0, ""); err != nil {
